@@ -138,6 +138,8 @@ use sha2::{
 pub mod audit;
 #[cfg(test)]
 mod tests;
+#[cfg(all(test, feature = "verif"))]
+mod verif;
 
 pub use audit::{
     Audit,
